@@ -156,6 +156,93 @@ def run_dataset(job):
         shutil.rmtree(tmp, ignore_errors=True)
 
 
+def run_threads(job):
+    """the FIRST filtered read on a cold handle from two threads at once: thread A is held inside its first call of
+    converted_types.convert (the call is only delayed), thread B does the same read meanwhile; both results against the brute force"""
+    import threading
+    import time
+    spec, progs = job
+    from fastparquet import ParquetFile, converted_types
+    tmp = tempfile.mkdtemp(prefix="verif-C05t-", dir="/tmp")
+    out = {"error": None, "progs": []}
+    try:
+        try:
+            path = FL.write_dataset(spec, tmp)
+            rows = FL.frame_rows(ParquetFile(path).to_pandas())
+        except Exception as e:    # noqa
+            out["error"] = "%s: %s" % (type(e).__name__, e)
+            return out
+        for prog in progs:
+            filters = FL.prog_to_filters(prog)
+            dnf = [filters] if prog["flat"] else filters
+            must = [r["rid"] for r in rows if FL.definitely(r, dnf)]
+            pf = ParquetFile(path)                      # cold: nothing memoised on its statistics objects
+            orig = converted_types.convert
+            gate = {"used": False}
+            started = threading.Event()
+            res = {}
+
+            def slow(*a, **k):
+                if not gate["used"]:
+                    gate["used"] = True
+                    started.set()
+                    time.sleep(0.12)
+                return orig(*a, **k)
+
+            def read(tag):
+                try:
+                    res[tag] = [int(x) for x in pf.to_pandas(filters=filters)["rid"].tolist()]
+                except Exception as e:      # noqa
+                    res[tag] = "raised %s: %s" % (type(e).__name__, str(e)[:120])
+            converted_types.convert = slow
+            try:
+                ta = threading.Thread(target=read, args=("A",))
+                ta.start()
+                started.wait(1.0)
+                tb = threading.Thread(target=read, args=("B",))
+                tb.start()
+                ta.join(30)
+                tb.join(30)
+            finally:
+                converted_types.convert = orig
+            o = {"must": must, "bad": None}
+            for tag in ("A", "B"):
+                got = res.get(tag)
+                if isinstance(got, str) or got is None:
+                    o["bad"] = "thread %s: %s" % (tag, got)
+                elif [x for x in must if x not in set(got)]:
+                    o["bad"] = "thread %s (%s): rows %s satisfy the program but are missing from %s" % (
+                        tag, "held in its first convert()" if tag == "A" else "reading while A was held", [x for x in must if x not in set(got)], got)
+                if o["bad"]:
+                    break
+            out["progs"].append(o)
+        return out
+    finally:
+        shutil.rmtree(tmp, ignore_errors=True)
+
+
+def gen_thread_job(rng, nprog):
+    """columns whose RAW statistics order differently from the converted ones (uint64 above the signed range; timestamps)"""
+    sizes = [rng.choice([2, 3, 4]) for _ in range(rng.choice([2, 3, 4]))]
+    n = sum(sizes)
+    offsets, a = [], 0
+    for s_ in sizes:
+        offsets.append(a)
+        a += s_
+    base = 2**63
+    uv, tv = [], []
+    for gi, s_ in enumerate(sizes):
+        for _ in range(s_):
+            uv.append(base + gi * 10 + rng.randrange(0, 8) if rng.random() < 0.85 else rng.randrange(0, 50))
+            tv.append(gi * 5 + rng.randrange(0, 5))
+    spec = {"n": n, "offsets": offsets, "scheme": "simple", "partition_on": [], "stats": True, "page_size": None, "v2": False, "has_nulls": None,
+            "compression": None, "flavour": "two-threads-cold-handle",
+            "cols": {"rid": {"kind": "int", "values": list(range(n))}, "u": {"kind": "uint", "values": uv, "big": True},
+                     "t": {"kind": "ts", "values": tv}}}
+    ch = chunks_of(spec)
+    return spec, [FL.gen_program(rng, spec, ch, cols=["u", "u", "u", "t"], wrong_type=0, ops=["==", ">=", ">", "<=", "<", "in", ">=", ">"]) for _ in range(nprog)]
+
+
 def chunks_of(spec):
     """per column, the value lists of the written row-group slices (to aim constants at chunk bounds)"""
     offs = spec["offsets"] + [spec["n"]]
@@ -355,6 +442,13 @@ def run(ctx):
             ctx.notes.append("directory_text_decoders: not located for %s (oracle stream `oddpart` only)" % [k for k, v in dd.items() if v is None])
     except SyntaxError as e:
         ctx.obligation("gen:directory_text_decoders_agree", False, "source does not parse: %s" % e)
+    try:
+        mp = py2coq.memo_publication(src, ["filter_row_groups", "filter_out_stats", "filter_out_cats", "filter_val"])
+        ctx.extra["memo_publication"] = mp
+        ctx.obligation("gen:memo_published_once (every memo slot obj[key] on the filter path is stored once, with its final value: no store of an "
+                       "intermediate value another thread using the handle can read)", not mp["offenders"], json.dumps(mp))
+    except SyntaxError as e:
+        ctx.obligation("gen:memo_published_once", False, "api.py does not parse: %s" % e)
     C.use_shadow()
     warnings.filterwarnings("ignore")
     rng = ctx.rng
@@ -453,6 +547,22 @@ def run(ctx):
             jobs.append((spec, [FL.gen_program(rng, spec, ch, wrong_type=0) for _ in range(10 if quick else 40)], False))
     results = C.pmap(run_dataset, jobs, init=_init, nproc=min(8, os.cpu_count() or 4), job_timeout=300)
 
+    # -------- wave 6: two threads, first filtered read on a cold handle (thread A held inside converted_types.convert)
+    tjobs = [gen_thread_job(rng, 5 if quick else 12) for _ in range(6 if quick else 30)]
+    tres = C.pmap(run_threads, tjobs, init=_init, nproc=min(6, os.cpu_count() or 4), job_timeout=300)
+    for (tspec, tprogs), tr in zip(tjobs, tres):
+        if "__crashed__" in tr or tr.get("error"):
+            ctx.count("threads.dataset", "crashed" if "__crashed__" in tr else "write error")
+            if "__crashed__" in tr:
+                ctx.fail({"component": "row-group-pruning", "outcome": "crashed", "scheme": "simple", "flavour": "two-threads-cold-handle"},
+                         {"spec": tspec, "progs": tprogs, "threads": True}, "two-thread filtered reads did not complete: " + tr["__crashed__"])
+            continue
+        for prog, o in zip(tprogs, tr["progs"]):
+            ctx.case({"spec": tspec, "prog": prog, "threads": True}, trivial=not o["must"])
+            ctx.count("threads.outcome", "bad" if o["bad"] else "ok")
+            if o["bad"]:
+                cls = classify(tspec, prog, "two-threads-cold-handle")
+                ctx.fail(cls, {"spec": tspec, "prog": prog, "threads": True}, o["bad"])
     # -------- oracle + collect model expressions
     mexprs, mmeta = [], []
     for ji, (job, res) in enumerate(zip(jobs, results)):
@@ -555,6 +665,13 @@ def replay(rep):
         print(json.dumps(rep, indent=1)[:6000])
         return 1
     _init()
+    if rep["case"].get("threads"):
+        progs = [rep["case"]["prog"]] if "prog" in rep["case"] else rep["case"]["progs"]
+        tr = run_threads((rep["case"]["spec"], progs))
+        bad = [o["bad"] for o in tr.get("progs", []) if o["bad"]]
+        print("filters:", [FL.prog_to_filters(p_) for p_ in progs])
+        print("PROPERTY FAILS: " + bad[0] if bad else "property holds on this case (%s)" % (tr.get("error") or "both threads returned every qualifying row"))
+        return 1 if bad else 0
     if "seq" in rep["case"]:
         res = run_dataset((rep["case"]["spec"], [], False, [rep["case"]["seq"]]))
         if res["error"]:
